@@ -24,7 +24,30 @@ TOL = 1e-8
 
 
 @st.composite
+def linger_gadget(draw):
+    """fully observable; the agent starts in A, D or B with different masses, may linger in A and in D (self-loop 1/2) and
+    never returns to a start state; action x is best only in A. The initial belief then has three new successors at three
+    different distances from the belief set, and the right first action for A exists only if A's point belief is found."""
+    from vpm.labels import enc
+    good, pen = draw(st.sampled_from([10, 8])), draw(st.sampled_from([-100, -50]))
+    wa, wd, wb = draw(st.sampled_from([(3, 2, 5), (4, 1, 5), (3, 1, 6), (2, 3, 5)]))
+    x, y = draw(st.sampled_from([(0, 1), (1, 0)]))
+    def row(s, rx, ry, outs):
+        return sorted([[x, [[ns, w, rx] for ns, w in outs]], [y, [[ns, w, ry] for ns, w in outs]]])
+    tr = [row(0, good, 0, [(0, 1), (3, 1)]), row(1, 0, good, [(1, 1), (3, 1)]), row(2, pen, good, [(3, 1)]), row(3, 0, good, [(3, 1)])]
+    spec = {"n": 4, "m": 2, "k": 4, "gamma": draw(st.sampled_from([0.9, 0.8])), "flavour": "discounted",
+            "slabels": [enc(l) for l in ["A", "D", "B", "C"]], "alabels": [enc("x"), enc("y")] if x == 0 else [enc("y"), enc("x")],
+            "olabels": [enc(f"o{i}") for i in range(4)], "trans": tr, "absorbing": [0, 0, 0, 0], "p0": [[0, wa], [1, wd], [2, wb]],
+            "explicit_states": None, "explicit_actions": None,
+            "obs": [[[[ns, 1]] for ns in range(4)] for a in range(2)]}
+    return {"pomdp": spec, "beliefs": [[wa, wd, wb, 0]], "revealing": True, "eps": draw(st.sampled_from([1e-2, 1e-3])), "horizon": None,
+            "min_exp": draw(st.sampled_from([2, 3, 100])), "extra_exp": 0}
+
+
+@st.composite
 def cases(draw, tier="quick", revealing=None):
+    if revealing is None and draw(st.integers(0, 14)) == 0:
+        return draw(linger_gadget())
     rev = draw(st.integers(0, 4)) == 0 if revealing is None else revealing
     nonneg = draw(st.integers(0, 3)) == 0
     spec = draw(pomdp_specs(max_states=4, max_actions=3, max_obs=3 if tier == "thorough" else 2, revealing=rev,
@@ -205,6 +228,20 @@ def prop_planner(case, ctx):
                           lambda: f"belief {b.tolist()}: QMDP {qv} outside [{lo5},{up5}]")
     if case["revealing"]:
         ctx.event("revealing")
+        if horizon is None and eps > 0:
+            # observations reveal the state: at the initial belief and at the point beliefs reachable from it the
+            # point-based value must also not fall short of the optimum by more than the slack of its threshold
+            slack = 2 * eps / (1 - arr.gamma) + 1e-7 * scale
+            reach = arr.reachable_beliefs(2)[:10]
+            for b in reach:
+                if not (np.isclose(b.max(), 1.0) or np.allclose(b, arr.p0)):
+                    continue
+                bel = Belief(tuple(pomdp.state_list), tuple(float(b[i]) for i in sl))
+                val = float(res.policy.value(bel))
+                # (state revealed after every step: V*(b) = max_a sum_s b(s) Q*_MDP(s, a), exactly)
+                vstar_b = max(float(sum(b[s_] * qstar[s_, a_] for s_ in sl)) for a_ in range(arr.m))
+                ctx.check(val >= vstar_b - slack, "C08.pbvi.revealing_value_below_optimal",
+                          lambda: f"belief {b.tolist()}: PBVI {val} < V* {vstar_b} - slack {slack}")
     if rmin_nonneg:
         ctx.event("nonnegative_rewards")
     ctx.nontrivial(arr.k >= 2 and arr.m >= 2 and len(sl) >= 2 and any((b > 0).sum() >= 2 for b in beliefs))
